@@ -33,7 +33,11 @@ ASSUMPTIONS = ["floats are modelled by exact rationals: times and jump paths com
                "C15_finer_grid assumes 0 < eps; the number of passes is bounded by max gap / eps"]
 THEOREM_NOTES = {
     "C15_fixed_dates": "about the repaired tree (fix commit for F-C15-3: np.cumsum of the interval totals); on the unrepaired tree the oracle reports F-C15-3",
-    "C15_jump_times": "Levy and (repaired, F-C15-4) Markov-chain jump-time simulators: running sums for any number of product intervals",
+    "C15_jump_times": "Levy and (repaired, F-C15-4) Markov-chain jump-time simulators: running sums for any number of product intervals; times (ivs) and "
+                      "values (incs) are separate arguments of the model as they are separate arrays in the code: the statements about times and about "
+                      "values hold for each alone, and only the last conjunct (premise: as many increments as offsets per interval) ties them together",
+    "C15_finer_grid_returns": "specification unfolding: conjuncts 1 and 3 hold by definition of finer_grid (they say which model function the returned arrays "
+                              "are); the content is conjunct 2 (times = cumsum of the gaps gives the gaps back) and its use in C15_cap_whole_path",
     "C15_finer_grid_aligned": "a parametricity statement about the pair-valued model (one gap list, values inserted at the same positions by "
                               "construction); that the two numpy inserts of helper.py really use the same positions is pinned by the correspondence",
     "C15_finer_grid": "Refines = inserted points carry the value of the point before them and take their gap out of the following original point",
@@ -57,11 +61,41 @@ def matches_known(v, known):
     fr = lambda x: Fraction(x) if not isinstance(x, str) else Fraction(x)   # noqa  (replays may carry "p/q" strings)
     try:
         if kid == "F-C15-5":
-            return r.get("kind") == "finer-nondyadic" and r.get("class") in ("duplicate time", "original time lost", "step above eps by rounding") \
-                and r.get("max_excess", 1.0) <= 1e-12
+            # accepted only if the returned times are EXACTLY what the documented algorithm gives when run in double precision
+            # (independent pure-Python replica) and every returned time is within 1e-12 of a time of the same algorithm run in exact
+            # arithmetic on the same inputs: rounding of the remainders, not a different insertion logic
+            if r.get("kind") != "finer-nondyadic" or r.get("class") not in ("duplicate time", "original time lost"):
+                return False
+            times, eps, got = [float(t) for t in r["times"]], float(r["eps"]), [float(t) for t in r["got_times"]]
+            predicted = finer_grid_replica(times, eps, float)
+            exact = finer_grid_replica(times, eps, Fraction)
+            near = all(min(abs(Fraction(g) - e) for e in exact) <= Fraction(1, 10 ** 12) for g in got)
+            return got == predicted and near and abs(len(got) - len(exact)) <= len(times)     # at most one point more or less per original gap
     except Exception:  # noqa
         return False
     return False
+
+
+def finer_grid_replica(times, eps, num):
+    """the loop of _build_finer_grid on a list, in the arithmetic `num` (float: double precision as numpy; Fraction: exact)"""
+    ts = [num(t) for t in times]
+    eps = num(eps)
+    dts = [ts[0] - num(0)] + [b - a for a, b in zip(ts, ts[1:])]
+    for _ in range(100000):
+        if not any(d > eps for d in dts):
+            break
+        out = []
+        for d in dts:
+            if d > eps:
+                out += [eps, d - eps]
+            else:
+                out.append(d)
+        dts = out
+    acc, res_ = num(0), []
+    for d in dts:
+        acc = acc + d
+        res_.append(acc)
+    return res_
 
 
 def report(res, what, replay):
@@ -602,6 +636,82 @@ def finer_grid_nondyadic(res, rng, tier):
                 report(res, "build_finer_grid (non-dyadic): an original value is missing from the result", ctx)
 
 
+def real_times_oracle(res, rng, tier):
+    """the library's own time machinery, unscripted: product dates from Asian(MONTHLY) (a real TimeGrid, 13 non-dyadic dates) and jump
+    times from the real jump_times_from_nb_of_jumps (numpy generator seeded from the run's seed; recorded on their way in); jump counts
+    and sizes stay scripted so that the running sums are exact.  Implementation-only oracle (float tolerance 1e-12 on the step bound)."""
+    import numpy as np
+    from rpylib.product.product import Product
+    from rpylib.product.payoff import Forward, Payoff, PayoffDates
+    from rpylib.product.underlying import Asian, Discretisation
+    for it in range(24 if tier == "quick" else 200):
+        kind = "levy" if it % 2 == 0 else "chain"
+        mode = ["fixed", "jump", "cap"][it % 3]
+        T = 1.0
+        prod = Product(Asian(Discretisation.MONTHLY), Payoff(PayoffDates.STOCHASTIC) if mode != "fixed" else Forward(1.0), maturity=T)
+        dates = [float(t) for t in prod.times_grid()[:]]
+        n_int = len(dates) - 1
+        eps = rng.choice([0.2, 0.05, 0.3 ** 1.5, 1.0 / 12]) if mode == "cap" else None
+        counts = [rng.choice([0, 0, 0, 1, 2]) for _ in range(n_int)]
+        proc, model = build_process(kind, rng)
+        ctx = {"kind": "real-times", "process": kind, "mode": mode, "dates": dates, "eps": eps, "counts": counts}
+        try:
+            proc.initialisation(prod, max_step_epsilon=eps) if eps is not None else proc.initialisation(prod)
+            grid = getattr(proc, "grid", None)
+            raw, sizes = draw_jumps(kind, rng, counts, grid, grid.origin_coordinate if grid is not None else None)
+            if kind == "levy":
+                model.script = deque(v for r in raw for v in r)
+            else:
+                rq = deque(raw)
+                proc._path_simulation._sampling = lambda size, rq=rq: list(rq.popleft())
+            cq, rec = deque(counts), []
+            proc.nb_jump_dt = lambda dt, cq=cq: cq.popleft()
+            real = type(proc).jump_times_from_nb_of_jumps
+
+            def recording(dt, n, real=real, rec=rec):
+                out = real(dt, n)
+                rec.append([float(x) for x in out])
+                return out
+            proc.jump_times_from_nb_of_jumps = recording
+            np.random.seed(rng.randrange(2 ** 31))
+            proc.pre_computation(1, prod)
+            sp = proc.simulate_one_path()
+        except Exception as e:  # noqa
+            report(res, f"{type(proc).__name__}.simulate_one_path raises {type(e).__name__} (real time grid, {mode})", dict(ctx, error=f"{type(e).__name__}: {e}"))
+            continue
+        times = [float(t) for t in sp.jump_times[:]]
+        jumps = [float(v) for v in np.asarray(sp.jump_path, dtype=float).flatten()]
+        res.count(("real-times", kind, mode, repr(counts), repr(rec)), nontrivial=sum(counts) >= 1, kind=f"real TimeGrid / jump times ({kind} {mode})")
+        bad = None
+        if times[0] != 0.0 or jumps[0] != 0.0 or times[-1] != T or len(times) != len(jumps):
+            bad = "path does not start at (0,0) / end at the maturity / components not aligned"
+        elif any(b <= a for a, b in zip(times, times[1:])) and not (eps is not None):
+            bad = "times are not strictly increasing"
+        if mode == "fixed":
+            run, acc = [Fraction(0)], Fraction(0)
+            for r in sizes:
+                acc += sum((F(v) for v in r), Fraction(0))
+                run.append(acc)
+            if times != dates or [F(v) for v in jumps] != run:
+                bad = "fixed dates: the path is not on the product dates with the running sums of the interval totals"
+        else:
+            jt = [float(np.float64(dates[k]) + np.float64(o)) for k, offs in enumerate(rec) for o in offs]
+            cum, acc = [], Fraction(0)
+            for v in (F(v) for r in sizes for v in r):
+                acc += v
+                cum.append(acc)
+            if any(min(abs(t - u) for u in times) > 1e-12 for t in jt):
+                bad = "a jump time drawn by jump_times_from_nb_of_jumps is missing from the returned path"
+            else:
+                want = [Fraction(0)] + refined_expectation([t - 1e-12 for t in jt], cum, times[1:-1]) + [cum[-1] if cum else Fraction(0)]
+                if [F(v) for v in jumps] != want:
+                    bad = "the jump part is not the running sum of the increments at the recorded jump times"
+            if eps is not None and eps < T and max(b - a for a, b in zip(times, times[1:])) > eps + 1e-12:
+                bad = "a step of the returned path exceeds max_step_epsilon (float tolerance 1e-12)"
+        if bad:
+            report(res, f"{type(proc).__name__} on the library's own time grid: {bad}", dict(ctx, times=times, jumps=jumps, recorded_offsets=rec))
+
+
 def copula_cases(res, rng, tier):
     """MarkovChainLevyCopula (2-d, independent copula of two step models) through simulate_one_path: one product
     or several product intervals; every component is compared with the 1-d chain model"""
@@ -848,6 +958,7 @@ def correspond(res):
     ccf, ccj = coupled_copula_cases(res, rng, tier)
     cfixed, cjump = cfixed + ccf, cjump + ccj
     copula_fixed_dates_replay(res)
+    real_times_oracle(res, rng, tier)
     groups = [
         ("finer1", "Q * Q * list Q * list Q * list Q * list Q", "finer1_check", f1),
         ("finerd", "nat * Q * Q * list Q * list (list Q) * list Q * list (list Q)", "finerd_check", fd),
